@@ -1,7 +1,8 @@
 (* C12 — Import is exclusive and only on pristine ledgers (sequential part).  Statements only; model Ledger/Import.v,
    proofs Ledger/ImportProofs.v.  H / pre: ANY hash function and trigger pre-image.
 
-   CONCURRENT PART (not proved here; >>> HOOK for the schedule harness): controllerFacade.Import holds the SESSION advisory
+   CONCURRENT PART (proved in Props/C12c.v on the interleaving model Ledger/ConcImport.v and tied to the real stack by the schedule
+   harness, TIE-S c12-*; the reduction below is what that model formalises): controllerFacade.Import holds the SESSION advisory
    lock of the ledger (LockLedger) from before it reads _system.ledgers.state until DefaultController.Import returned;
    handleState takes the same lock inside the transaction of every write on a ledger whose cached state is not in-use.
    Hence, in any schedule, a facade write on an initializing ledger is ordered entirely before the import (then
@@ -13,6 +14,7 @@
    statement; before the repair it never took the lock (C12_unrepaired_atomic_bypass shows the sequential face). *)
 From Coq Require Import List ZArith String Bool Ascii Lia Sorted.
 From LV Require Import Base.Util Base.Json Ledger.Types Ledger.Core Ledger.Bulk Ledger.Invariants Ledger.HashChain Ledger.Import Ledger.ImportProofs.
+From LV Require Export Props.C12c.   (* concurrent part: the ledger-lock protocol under every schedule (Ledger/ConcImport.v) *)
 Import ListNotations.
 Open Scope Z_scope.
 
